@@ -74,6 +74,8 @@ def path_of(t):
             t = t[1]
         elif h in ('some_of', 'values', 'keys', 'elem', 'hashmap'):
             t = t[1]
+        elif h == 'ite':
+            t = t[2]
         else:
             break
     return list(reversed(out))
